@@ -82,9 +82,21 @@ func main() {
 		os.Exit(1)
 	}
 	if *dumpSigs {
+		fmt.Println("package main")
+		fmt.Println()
+		fmt.Println("// Declaration tables of the pinned tree: (package, name, receiver+signature) of")
+		fmt.Println("// every function, and the field list of every struct type. canonicalise uses")
+		fmt.Println("// them to recognise declarations that were only renamed. Regenerate with")
+		fmt.Println("// `wirecheck -dump-sigs > anchors_table.go` after reviewing an intended change.")
+		fmt.Println("var anchorSigs = [][3]string{")
 		for _, fi := range c.all {
 			fmt.Printf("\t{%q, %q, %q},\n", fi.Pkg.PkgPath, fi.Name, sigKey(fi.Obj))
 		}
+		fmt.Println("}")
+		fmt.Println()
+		fmt.Println("var pinnedStructs = []pinnedStruct{")
+		dumpStructs(c.Pkgs)
+		fmt.Println("}")
 		return
 	}
 	// discovery pass: which functions do the rules ask for by name? Those stay
